@@ -54,6 +54,8 @@ def hostile(shard, rnd):
     if shard.get('i', 0) == 0:
         for x in faults.short_payloads(rnd):
             yield x
+        for x in faults.template_key_fault_frames(rnd):
+            yield x
     for x in faults.random_inputs(rnd, shard['rand']):
         yield x
     for depth in shard['deep']:
